@@ -233,7 +233,7 @@ func VerifH_C15_CrowdedTableIsolation() {
 // kept in the table afterwards.
 func VerifH_C15_RacingFirstQueries() {
 	verifrt.Unwind(80)
-	verifrt.SchedBound(2)
+	verifrt.SchedBound(2 + verifrt.Tier) // thorough: one more deviation from the default schedule
 	verifrt.PreemptSync()
 	verifrt.NoTimers()
 	var calls []*rate.Limiter
